@@ -51,11 +51,11 @@ CHECKS['C15'] = dict(
     src='checks/c15_huffman.cpp',
     runs=[dict(cfg='asan')],
     technique='explicit-state BFS over all update histories (depth-bounded) on small trees + exhaustive capacity-tail enumeration, lock-step with an independent pointer-based reference tree',
-    level_text='For 2..6 symbols (thorough: 2..8) every update history up to a depth bound per tree size (quick 12,12,12,11,9 for 2..6 symbols; thorough 40,24,18,14,12,10,9 for 2..8) is explored with full-state deduplication, together with every out-of-range update/accessor/encoder call in every state. In every state the tree walked through the public accessors must be a full binary prefix code over exactly its symbols, equal in shape to ref_huff run on the same history, and the encoder bit string of every symbol (LSB first) must drive the decoder walk from the root to that symbol in exactly bitCount steps; refused calls must leave the tree unchanged. On 314 symbols eight deterministic adversarial schedules (single symbol, round robin, sawtooth, reverse, ping-pong, skewed, stride, last) are checked after every update up to 20000 (thorough: all 65221) updates, and from 3 updates short of capacity all continuations of depth 5 over 5-6 representative symbols are enumerated: the first 3 succeed, every later one is refused without change (also for 2 and 3 symbols).',
+    level_text='For 2..6 symbols (thorough: 2..8) every update history up to a depth bound per tree size (quick 12,12,12,11,9 for 2..6 symbols; thorough 40,24,18,14,12,9,8 for 2..8) is explored with full-state deduplication, together with every out-of-range update/accessor/encoder call in every state. In every state the tree walked through the public accessors must be a full binary prefix code over exactly its symbols, equal in shape to ref_huff run on the same history, and the encoder bit string of every symbol (LSB first) must drive the decoder walk from the root to that symbol in exactly bitCount steps; refused calls must leave the tree unchanged. On 314 symbols eight deterministic adversarial schedules (single symbol, round robin, sawtooth, reverse, ping-pong, skewed, stride, last) are checked after every update up to 20000 (thorough: all 65221) updates, and from 3 updates short of capacity all continuations of depth 5 over 5-6 representative symbols are enumerated: the first 3 succeed, every later one is refused without change (also for 2 and 3 symbols).',
     level_note='Trusts ref_huff (150 lines, self-checked list invariants) and g++/ASan/UBSan. Deciding clauses use only public accessors; private arrays are used for state keys and diagnostics. Pseudo-random long histories are sampling and are not claimed.',
     rule='state = (three private arrays, reference tree with weights); transition = one UpdateCodeCount or one invalid call, followed by the full oracle',
     bounds={'quick': 'n=2..6 depth 12/12/12/11/9; 314 symbols: 8 schedules x 20000 updates (encoder checked every 16th); capacity tail for n in {314 (3 schedules), 2, 3}',
-            'thorough': 'n=2..8 depth 40/24/18/14/12/10/9; 314 symbols: 8 schedules x 65221 updates, encoder after every update'},
+            'thorough': 'n=2..8 depth 40/24/18/14/12/9/8; 314 symbols: 8 schedules x 65221 updates, encoder after every update'},
     must_hit={'any': ['small/updates', 'small/invalid-operations', 'long/histories', 'capacity/last-updates-within-capacity', 'capacity/updates-beyond-capacity']},
     assumptions=['capacity = 65535 - symbols updates (the 16-bit root count n + updates must stay representable)'],
 )
@@ -64,13 +64,13 @@ CHECKS['C04'] = dict(
     src='checks/c04_lzh.cpp',
     runs=[dict(cfg='asan', env={'VERIF_PART': 'main'}), dict(cfg='plain', env={'VERIF_PART': 'len3'}, tiers=('thorough',))],
     technique='small-scope exhaustive input/token enumeration + explicit-state BFS (full-state hash) over all drain schedules of the real decoder, against an independent LZHUF reference codec',
-    level_text='Every byte string of length 0..2 (thorough: also all 16.7 M of length 3) and every token sequence of depth <= 3 (thorough 4) over 4 literals and 28 matches (lengths 3,4,59,60 x distances 1,2,63,64,65,4095,4096), plus the full grid of every match length 3..60 x every distance 1..4096, is decoded by the real HuffLZ and compared byte for byte with ref_lzh (the token payload must be a prefix and fewer than eight padding codes may follow). For six fixed streams the graph of ALL drain schedules over GetData(k) / GetInternalBuffer is explored to a fixpoint with full decoder-state hashing: every edge must deliver exactly the next reference bytes and report 0 only at the end. Streams beyond the 65221-code capacity must end in an error with only a reference prefix delivered, for three stream kinds x three drain modes, and all 121 continuations of depth <= 4 across the capacity boundary are enumerated. LZH members of a reference-encoded volume must extract to the reference bytes.',
+    level_text='Every byte string of length 0..2 (thorough: also all 16.7 M of length 3) and every token sequence of depth <= 3 (thorough 4) over 4 literals and 28 matches (lengths 3,4,59,60 x distances 1,2,63,64,65,4095,4096), plus the full grid of every match length 3..60 x every distance 1..4096, is decoded by the real HuffLZ and compared byte for byte with ref_lzh (the token payload must be a prefix and fewer than eight padding codes may follow). For six fixed streams the graph of ALL drain schedules over GetData(k) / GetInternalBuffer is explored to a fixpoint with full decoder-state hashing: every edge must deliver exactly the next reference bytes and report 0 only at the end; the same search runs on all 256 one-byte inputs and 768 two-byte inputs with an 11-operation alphabet. Streams beyond the 65221-code capacity must end in an error with only a reference prefix delivered, for three stream kinds x three drain modes, and all 121 continuations of depth <= 4 across the capacity boundary are enumerated. LZH members of a reference-encoded volume must extract to the reference bytes.',
     level_note='Trusts ref_lzh/ref_huff (about 300 lines, cross-checked by encode->decode->expand self-consistency on every token sequence), g++/ASan/UBSan. Inputs outside the enumerated sets (long random strings) are represented only by the six drain streams. The empty input is checked for safety, termination and drain independence only.',
     rule='case = one enumeration chunk or one drain-schedule BFS; states = inputs/token sequences/decoder states; transitions = decodes or drain calls compared with the reference',
     bounds={'quick': 'inputs len 0..2; token depth 3; match grid 58x4096; drain BFS: 6 streams with the 4-op alphabet {GetData(1),GetData(62),GetData(4096),GetInternalBuffer} (stream 0: 15 ops); capacity 3x3 + 121 tails',
             'thorough': 'adds all 3-byte inputs (plain -O2 build), token depth 4, 15-op drain alphabet {0,1,2,61,62,63,100,4033,4034,4035,4095,4096,4097,5000,IB} on all six streams'},
     must_hit={'any': ['short/with-match', 'short/literals-only', 'tokens/with-padding-codes', 'tokens/exact-end', 'grid/lengths', 'drain/data-returns', 'drain/zero-returns',
-                      'drain/internal-buffer-calls', 'capacity/over-long-streams', 'capacity/tail-over', 'capacity/tail-within', 'volume/members-extracted', 'volume/over-capacity-member']},
+                      'drain/internal-buffer-calls', 'drain/short-input-graphs', 'capacity/over-long-streams', 'capacity/tail-over', 'capacity/tail-within', 'volume/members-extracted', 'volume/over-capacity-member']},
     assumptions=['capacity: 65221 codes (16-bit counters, 314 symbols)'],
 )
 
@@ -117,10 +117,10 @@ CHECKS['C05'] = dict(
     src='checks/c05_archive_faults.cpp',
     runs=[dict(cfg='asan')],
     technique='deviation-bounded fault enumeration over reference-encoded archives + explicit-state reachability over all call sequences of each opened archive (differential against a fresh object)',
-    level_text='Seeds: six reference VOL archives (0-3 members, an LZH member, unused slots), three reference CLM archives and four WAV layouts. Level 1: every proper prefix, every integer field x ~45 boundary values (0,1,x+-1,x+-14,13..15,27..29,2^31,2^32-9..2^32-1,file size relatives, with and without the padding-flag bit) and every byte x 4 substitutions; level 2 (thorough): every pair of fields x 10x10 values; coordinated corruptions: index length = 14k+r with enclosing lengths consistent (blocks shifted or not), more valid entries than names, merged names, missing final NUL, block offsets into the header/at EOF-8/EOF-7/EOF, VBLK length != index size, CLM counts running into the data, CLM extents ending at/after EOF. Every file is opened by VolFile/ClmFile under ASan+UBSan (vector annotations on); for every file that opens, the reachable states of the shared file reader (position, stream flags) under the full call alphabet (GetCount, GetName/GetSize/GetCompressionCode/OpenStream+drain/ExtractFile by every index in {0,1,2,count-1,count,count+1,SIZE_MAX}, GetIndex/Contains/ExtractFile/OpenStream by every member name, an absent and an empty name) are explored to a fixpoint and every call in every state must give the observation of the same call on a freshly opened archive; returned member streams must have a recorded length, lie inside the file and deliver exactly those file bytes. Mutated WAVs are offered to ClmFile::CreateArchive alone and next to a valid WAV in both orders: error or an archive that reopens, within the watchdog.',
+    level_text='Seeds: seven reference VOL archives (0-4 members, long and mixed-case names, an LZH member, unused slots), four reference CLM archives (incl. 8-character names) and four WAV layouts. Level 1: every proper prefix, every integer field x ~45 boundary values (0,1,x+-1,x+-14,13..15,27..29,2^31,2^32-9..2^32-1,file size relatives, with and without the padding-flag bit) and every byte x 4 substitutions; level 2 (thorough): every pair of fields x 10x10 values; coordinated corruptions: index length = 14k+r with enclosing lengths consistent (blocks shifted or not), more valid entries than names, merged names, missing final NUL, block offsets into the header/at EOF-8/EOF-7/EOF, VBLK length != index size, CLM counts running into the data, CLM extents ending at/after EOF. Every file is opened by VolFile/ClmFile under ASan+UBSan (vector annotations on); for every file that opens, the reachable states of the shared file reader (position, stream flags) under the full call alphabet (GetCount, GetName/GetSize/GetCompressionCode/OpenStream+drain/ExtractFile by every index in {0,1,2,count-1,count,count+1,SIZE_MAX}, GetIndex/Contains/ExtractFile/OpenStream by every member name, an absent and an empty name) are explored to a fixpoint and every call in every state must give the observation of the same call on a freshly opened archive; returned member streams must have a recorded length, lie inside the file and deliver exactly those file bytes. Mutated WAVs are offered to ClmFile::CreateArchive alone and next to a valid WAV in both orders: error or an archive that reopens, within the watchdog.',
     level_note='Trusts ref_vol/ref_clm/ref_wav encoders, g++/ASan/UBSan. Coverage-guided mutation is sampling and is not used. Allocation requests above 64 MiB are answered with bad_alloc by the harness allocator. Either recorded member length (VBLK length or index size) is accepted for a stream.',
     rule='case = 150 mutants of one seed; states = opened archives + reader states expanded; transitions = constructor calls and archive calls compared',
-    bounds={'quick': 'level 1 + coordinated corruptions on 13 seeds', 'thorough': 'adds level 2 (all field pairs x 10x10 values)'},
+    bounds={'quick': 'level 1 + coordinated corruptions on 15 seeds', 'thorough': 'adds level 2 (all field pairs x 10x10 values)'},
     must_hit={'any': ['open/refused', 'open/accepted', 'calls/returned', 'calls/ordinary-error', 'extent/streams-verified', 'sequences/states-expanded', 'faults/prefixes', 'faults/single-field-or-byte', 'faults/coordinated', 'wav/archive-produced', 'wav/refused']},
     assumptions=['an archive object is judged against a freshly opened object on the same bytes: behaviour common to both is judged by clauses 1 and 3 only'],
 )
